@@ -187,6 +187,9 @@ func (b *binding) emitSetP() {
 			// an assignment in the temporal dead zone is a ReferenceError
 			b.emitGetP()
 			b.scope.c.emit(throwAssignToConst)
+		} else {
+			// the assignment is silently ignored, its value is discarded
+			b.scope.c.emit(pop)
 		}
 		return
 	}
